@@ -19,6 +19,8 @@ type Clause struct {
 	File   string
 	Line   int
 	Tier   string // "" = always, "thorough" = only in thorough tier
+	Internal bool // mentions locals of the function: proved, but not exported to callers
+	Cumulative bool // the proof of this clause may use the earlier ensures clauses of the same contract
 }
 
 type LetDef struct {
@@ -202,6 +204,14 @@ func (cs *ContractSet) loadFile(path, repo string) error {
 				cl.Labels = strings.Fields(m[1])
 				s = s[len(m[0]):]
 			}
+			if strings.HasPrefix(s, "internal ") {
+				cl.Internal = true
+				s = strings.TrimSpace(strings.TrimPrefix(s, "internal "))
+			}
+			if strings.HasPrefix(s, "cumulative ") {
+				cl.Cumulative = true
+				s = strings.TrimSpace(strings.TrimPrefix(s, "cumulative "))
+			}
 			if strings.HasPrefix(s, "thorough ") {
 				cl.Tier = "thorough"
 				s = strings.TrimSpace(strings.TrimPrefix(s, "thorough "))
@@ -215,6 +225,8 @@ func (cs *ContractSet) loadFile(path, repo string) error {
 			return cl, nil
 		}
 		switch kw {
+		case "needs":
+			c.Uses = append(c.Uses, strings.Fields(rest)...)
 		case "mode":
 			c.Mode = strings.TrimSpace(rest)
 			if c.Mode != "bits" && c.Mode != "math" {
